@@ -3,7 +3,7 @@ import ast
 
 from ..core import AnalysisError
 from ..cfront import strip, text
-from .. import ckern, xlayer, pyxread
+from .. import cq, pq, cnorm, ckern, xlayer, pyxread
 from ..ceval import CEval, find_all, loop_parts, body_stmts, loop_var, stores_to, to_expr
 from ..formula import Canon, Ratio, Undecided, show, num, ExprBuilder
 from ..pyfront import Mod, dotted, const_value, raises
@@ -23,33 +23,26 @@ EXPLANATION = (
     "The statistics' values (numpy / pandas / scipy) are trusted.")
 
 
+def _kw(e, k):
+    return pq.kw_of(e, k)
+
+
 def run(rep):
     rep.rule("R20.a", "ppos / standard_normal / lhs closed forms, symmetry and monotonicity identities, guards")
     rep.rule("R20.b", "pareto kernel step for all predicate assignments, difference orientation, early exit; wrapper copy / rank check / int32 flags / raise")
     rep.rule("R20.c", "boxplot_stats: one finite mask for all statistics, percentile levels in label order, NaN row with the same labels, coverage validation")
     rep.rule("R20.d", "violin: quantile levels from compute_percentiles of the coverage constants, KDE profile min-max normalised")
     mod = Mod(rep.repo, "stat/sutils.py")
-    b = ExprBuilder(None, None)
-    rep.unit("stat/sutils.py: ppos, standard_normal, lhs, pareto_front; stat/c_paretofront.c; plot/boxplot.py: compute_percentiles, boxplot_stats, Boxplot.__init__; plot/violinplot.py: _compute")
+    rep.unit("stat/sutils.py: ppos, standard_normal, lhs, pareto_front; stat/c_paretofront.c (normalised); plot/boxplot.py: compute_percentiles, boxplot_stats, Boxplot.__init__; plot/violinplot.py: _compute")
     # ---------------- ppos ------------------------------------------------------------------------------------------------------------
     pp = mod.func("ppos")
-    ret = [s for s in pp.body if isinstance(s, ast.Return)]
-    okf = False
-    if ret:
-        try:
-            cn = Canon()
-            got = cn.ratio(b.build(ret[0].value, {"nval": ('sym', 'n'), "cst": ('sym', 'c')}))
-            I = cn.ratio(b.build(ast.parse("np.arange(1, n+1)", mode="eval").body, {"n": ('sym', 'n')}))
-            want = (I - Ratio.sym('c')) / (Ratio.sym('n') + 1 - 2 * Ratio.sym('c'))
-            okf = got == want
-        except Undecided:
-            okf = False
-    rep.check(okf, "R20.a", "stat/sutils.py", "ppos", "p_i = (i - cst)/(n + 1 - 2 cst), i = 1..n", ast.unparse(ret[0].value) if ret else "", line=pp.lineno)
-    # identities on the formula (i symbolic)
+    paths = pq.PEval().run(pp)
+    rets = [p_ for p_ in paths if p_.how == "return"]
+    okf = len(rets) == 1 and pq.same(rets[0].value, "(np.arange(1, nval+1) - cst)/(nval + 1 - 2*cst)")
+    rep.check(okf, "R20.a", "stat/sutils.py", "ppos", "p_i = (i - cst)/(n + 1 - 2 cst), i = 1..n", show(rets[0].value)[:120] if rets else "", line=pp.lineno)
     i, n, c = Ratio.sym('i'), Ratio.sym('n'), Ratio.sym('c')
     p = lambda k: (k - c) / (n + 1 - 2 * c)
     rep.check(p(i) + p(n + 1 - i) == Ratio.const(1), "R20.a", "stat/sutils.py", "ppos", "symmetry p_i + p_(n+1-i) = 1 (exact identity of the formula)", "", line=pp.lineno)
-    # increment 1/(n+1-2c) > 0 and range with c = 1/2 - d, d in [0, 1/2]
     inc = p(i + 1) - p(i)
     sub = lambda r: Ratio(r.n.subst('c', Poly.const(0.5) - Poly.sym('d')), r.d.subst('c', Poly.const(0.5) - Poly.sym('d')))
     from .c04 import positive_ratio
@@ -58,135 +51,171 @@ def run(rep):
     hi = sub(Ratio.const(1) - p(n))
     rep.check(positive_ratio(lo, {"n", "d"}) and positive_ratio(hi, {"n", "d"}), "R20.a", "stat/sutils.py", "ppos", "0 < p_1 and p_n < 1 for 0 <= cst < ... <= 1/2 (d = 1/2 - cst >= 0)",
               f"p_1 = {lo}, 1 - p_n = {hi}", line=pp.lineno)
-    g = [s for s in pp.body if isinstance(s, ast.If) and raises(s.body)]
-    okg = bool(g) and ast.unparse(g[0].test).replace(" ", "") in ("cst<0.0orcst>0.5", "cst<0orcst>0.5", "cst>0.5orcst<0.0")
-    rep.check(okg, "R20.a", "stat/sutils.py", "ppos", "cst outside [0, 1/2] rejected", ast.unparse(g[0].test) if g else "", line=pp.lineno)
+    okg = any(p_.how == "raise" and cq.holds_any(p_.conds, "cst < 0 || cst > 0.5", False) and len(p_.conds) == 1 and cq.same_cond(p_.conds[0][0], "cst < 0 || cst > 0.5", False) and p_.conds[0][1]
+              for p_ in paths)
+    rep.check(okg, "R20.a", "stat/sutils.py", "ppos", "cst outside [0, 1/2] rejected", "", line=pp.lineno)
     # ---------------- standard_normal -----------------------------------------------------------------------------------------------------
     sn = mod.func("standard_normal")
-    un = [x for x in ast.walk(sn) if isinstance(x, ast.Assign) and isinstance(x.targets[0], ast.Name) and x.targets[0].id == "unorm"]
-    oks = False
-    if un and isinstance(un[0].value, ast.Call) and dotted(un[0].value.func) == "norm.ppf":
-        try:
-            cn = Canon()
-            got = cn.ratio(b.build(un[0].value.args[0], {"ranks": ('sym', 'r'), "cst": ('sym', 'c'), "nval": ('sym', 'n')}))
-            oks = got == (Ratio.sym('r') + 1 - c) / (n + 1 - 2 * c)
-        except Undecided:
+    srets = [p_ for p_ in pq.PEval().run(sn) if p_.how == "return"]
+    oks, okr, forms = bool(srets), True, []
+    for p_ in srets:
+        v = p_.value
+        if not (isinstance(v, tuple) and v[0] == 'tuple' and len(v[1]) == 2 and pq.call_named(v[1][0], ".ppf")):
             oks = False
-    rep.check(oks, "R20.a", "stat/sutils.py", "standard_normal", "normal score = norm.ppf((rank + 1 - cst)/(n + 1 - 2 cst)) with 0-based ranks (same plotting position formula)",
-              ast.unparse(un[0].value) if un else "", line=sn.lineno)
-    rk = [x for x in ast.walk(sn) if isinstance(x, ast.Assign) and isinstance(x.targets[0], ast.Name) and x.targets[0].id == "ranks"]
-    forms = sorted(ast.unparse(x.value).replace(" ", "") for x in rk)
-    rep.check(forms == ["np.arange(nval)", "pd.Series(x).rank(method=rank_method)-1"], "R20.a", "stat/sutils.py", "standard_normal",
-              "ranks = pandas rank - 1 (ties keep their fractional average rank), or 0..n-1 for sorted data", str(forms), line=sn.lineno)
-    nv = [x for x in ast.walk(sn) if isinstance(x, ast.Assign) and isinstance(x.targets[0], ast.Name) and x.targets[0].id == "nval"]
-    rep.check(bool(nv) and ast.unparse(nv[0].value) == "len(x)", "R20.a", "stat/sutils.py", "standard_normal", "n = sample size", "", line=sn.lineno)
+            continue
+        score, ranks = v[1]
+        arg = score[2][1]
+        oks = oks and pq.same(arg, ('div', ('sub', ('add', ranks, num(1)), ('sym', 'cst')), pq.parse("len(x) + 1 - 2*cst")))
+        issorted = any(t and c == ('sym', 'sorted') for c, t in p_.conds)
+        if issorted:
+            okr = okr and pq.same(ranks, "np.arange(len(x))")
+        else:
+            okr = okr and ranks[0] == 'sub' and pq.same(ranks[2], "1") and pq.call_named(ranks[1], ".rank") and pq.same(ranks[1][2][0], "pd.Series(x)") and \
+                _kw(ranks[1], "method") == ('sym', 'rank_method')
+        forms.append(show(ranks)[:60])
+    rep.check(oks, "R20.a", "stat/sutils.py", "standard_normal", "normal score = norm.ppf((rank + 1 - cst)/(n + 1 - 2 cst)) with 0-based ranks and n = sample size (same plotting position formula)",
+              "", line=sn.lineno)
+    rep.check(okr and len(srets) == 2, "R20.a", "stat/sutils.py", "standard_normal", "ranks = pandas rank - 1 (ties keep their fractional average rank), or 0..n-1 for sorted data", str(forms), line=sn.lineno)
     # ---------------- lhs ------------------------------------------------------------------------------------------------------------------------
     lh = mod.func("lhs")
-    loop = [x for x in lh.body if isinstance(x, ast.For)]
-    okl = False
-    det = "parameter loop not found"
-    if loop and ast.unparse(loop[0].iter).replace(" ", "") == "range(nparams)":
-        v = loop[0].target.id
-        asg = {x.targets[0].id if isinstance(x.targets[0], ast.Name) else ast.unparse(x.targets[0]).replace(" ", ""): x.value for x in loop[0].body if isinstance(x, ast.Assign)}
+    lpaths = pq.PEval().run(lh)
+    lrets = [p_ for p_ in lpaths if p_.how == "return"]
+    okl, det = bool(lrets), ""
+    for p_ in lrets:
+        st = [e for e in p_.effects if e.kind == 'store' and e.loops]
+        if len(st) != 1:
+            okl, det = False, f"{len(st)} stores in the parameter loop"
+            continue
+        e = st[0]
+        # samples[:, i] <- linspace(lo + h, hi - h, n)[perm] + uniform(-h, h, size=n)
+        key_ok = isinstance(e.key, tuple) and e.key[0] == 'tuple' and len(e.key[1]) == 2 and pq.call_named(e.key[1][1], "elem")
+        if not key_ok or e.val[0] != 'add':
+            okl, det = False, "store form"
+            continue
+        I = e.key[1][1]
+        parts = [e.val[1], e.val[2]]
+        cen = [x for x in parts if pq.call_named(x, "getitem") and pq.call_named(x[2][0], "linspace")]
+        jit = [x for x in parts if pq.call_named(x, ".uniform")]
+        if len(cen) != 1 or len(jit) != 1:
+            okl, det = False, "centres + jitter not recognised"
+            continue
+        lin, perm = cen[0][2][0], cen[0][2][1]
+        a0, a1, a2 = lin[2][0], lin[2][1], lin[2][2]
+        # lo, hi: the i-th entries of the two bound vectors (after the function's own conversions)
+        N = ('sym', 'nsamples')
+        # h := (hi - lo)/n/2 is recovered from a0 = lo + h and a1 = hi - h
+        cn = Canon()
         try:
-            cn = Canon()
-            env = {"pmax": ('sym', 'PMAX'), "pmin": ('sym', 'PMIN'), "nsamples": ('sym', 'N'), v: ('sym', v)}
-            PMX = cn.ratio(('call', 'getitem', (('sym', 'PMAX'), ('sym', v))))
-            PMN = cn.ratio(('call', 'getitem', (('sym', 'PMIN'), ('sym', v))))
-            du = cn.ratio(b.build(asg["du"], env))
-            okdu = du == (PMX - PMN) / Ratio.sym('N')
-            env["du"] = ('sym', 'DU')
-            u = asg["u"]
-            oku = isinstance(u, ast.Call) and dotted(u.func) == "np.linspace" and len(u.args) == 3 and \
-                cn.ratio(b.build(u.args[0], env)) == PMN + Ratio.sym('DU') / 2 and cn.ratio(b.build(u.args[1], env)) == PMX - Ratio.sym('DU') / 2 and \
-                cn.ratio(b.build(u.args[2], env)) == Ratio.sym('N')
-            okk = ast.unparse(asg["kk"]).replace(" ", "") == "np.random.permutation(nsamples)"
-            s_ = asg["s"]
-            oks_ = isinstance(s_, ast.BinOp) and isinstance(s_.op, ast.Add) and ast.unparse(s_.left).replace(" ", "") == "u[kk]" and isinstance(s_.right, ast.Call) and \
-                dotted(s_.right.func) == "np.random.uniform" and cn.ratio(b.build(s_.right.args[0], env)) == -Ratio.sym('DU') / 2 and \
-                cn.ratio(b.build(s_.right.args[1], env)) == Ratio.sym('DU') / 2 and {k.arg: ast.unparse(k.value) for k in s_.right.keywords} == {"size": "nsamples"}
-            okst = f"samples[:,{v}]" in asg and ast.unparse(asg[f"samples[:,{v}]"]) == "s"
-            okl = okdu and oku and okk and oks_ and okst
-            det = f"du:{okdu} centres:{oku} permutation:{okk} jitter:{oks_} store:{okst}"
-        except (Undecided, KeyError) as ex:
-            det = str(ex)
+            half2 = cn.ratio(a1) - cn.ratio(a0)            # = (hi - lo) - 2h = (hi-lo)(1 - 1/n)
+            ja, jb = jit[0][2][1], jit[0][2][2]
+            h = cn.ratio(jb)
+            oksym = cn.ratio(ja) == -h
+            lo_r, hi_r = cn.ratio(a0) - h, cn.ratio(a1) + h
+            okh = h * Ratio.const(2) * cn.ratio(N) == (hi_r - lo_r)
+            okn = pq.same(a2, N) and _kw(jit[0], "size") is not None and pq.same(_kw(jit[0], "size"), N)
+            okperm = pq.call_named(perm, ".permutation") and pq.same(perm[2][1], N)
+            lo_e = ('sub', a0, jb)
+            okbounds = pq.mentions(lo_e, lambda x: x == ('sym', 'pmin')) and pq.mentions(('add', a1, jb), lambda x: x == ('sym', 'pmax')) and \
+                pq.mentions(lo_e, lambda x: x == I)
+            ok1 = oksym and okh and okn and okperm and okbounds
+            det = f"symmetric jitter:{oksym} width:{okh} counts:{okn} permutation:{okperm} bounds:{okbounds}"
+        except Exception as ex:
+            ok1, det = False, str(ex)
+        okl = okl and ok1
     rep.check(okl, "R20.a", "stat/sutils.py", "lhs", "per parameter: du = (pmax-pmin)/n, n centres pmin+du/2 .. pmax-du/2, one permutation, jitter uniform(-du/2, du/2)", det, line=lh.lineno)
-    gd = [x for x in lh.body if isinstance(x, ast.If) and raises(x.body) and "pmax-pmin<=0" in ast.unparse(x.test).replace(" ", "")]
+    gd = [p_ for p_ in lpaths if p_.how == "raise" and p_.conds and p_.conds[-1][1] and
+          (pq.call_named(p_.conds[-1][0], "any") and pq.mentions(p_.conds[-1][0], lambda x: x[0] == 'cmp' and x[1] == '<=' and pq.same(x[3], "0") and x[2][0] == 'sub'))]
     rep.check(bool(gd), "R20.a", "stat/sutils.py", "lhs", "empty or inverted ranges rejected (pmax - pmin <= 0)", "", line=lh.lineno)
 
     # ---------------- pareto kernel ----------------------------------------------------------------------------------------------------------------
     K = ckern.analyze(rep.repo)
-    fn = K["fns"].get("c_paretofront")
-    if fn is None:
+    if K["fns"].get("c_paretofront") is None:
         raise AnalysisError("stat/c_paretofront.c: c_paretofront not found")
+    fn = ckern.normalised(K, "c_paretofront", rep.repo)
     file = fn["file"]
-    l1 = [s for s in fn["body"]["inner"] if s.get("kind") == "ForStmt"]
+    top = body_stmts(fn["body"])
+    l1 = [s_ for s_ in top if s_.get("kind") in ("ForStmt", "WhileStmt") and "isdominated" in cnorm.writes(s_)[1]]
     if len(l1) != 1:
         raise AnalysisError(f"{file}: point loop not found")
-    iv = loop_var(l1[0])
-    s1 = body_stmts(loop_parts(l1[0])[3])
-    l2 = [s for s in s1 if s.get("kind") == "ForStmt"]
-    jv = loop_var(l2[0])
-    s2 = body_stmts(loop_parts(l2[0])[3])
-    l3 = [s for s in s2 if s.get("kind") == "ForStmt"]
-    kv = loop_var(l3[0])
-    s3 = body_stmts(loop_parts(l3[0])[3])
-    rng = [text(loop_parts(l)[1]).replace(" ", "") for l in (l1[0], l2[0], l3[0])]
-    rep.check(rng == [f"{iv}<nval", f"{jv}<nval", f"{kv}<ncol"], "R20.b", file, "c_paretofront", "every point against every other point, over all coordinates", str(rng), line=l1[0].get("_line"))
+    l1 = l1[0]
+    r1 = cq.loop_range(l1, cq.preceding(top, l1))
+    s1 = body_stmts(r1["body"]) if r1 else body_stmts(loop_parts(l1)[3])
+    l2 = [s_ for s_ in s1 if s_.get("kind") in ("ForStmt", "WhileStmt")]
+    if len(l2) != 1 or r1 is None:
+        raise AnalysisError(f"{file}: comparison loop not found")
+    l2 = l2[0]
+    r2 = cq.loop_range(l2, cq.preceding(s1, l2))
+    s2 = body_stmts(r2["body"]) if r2 else []
+    l3 = [s_ for s_ in s2 if s_.get("kind") in ("ForStmt", "WhileStmt")]
+    if len(l3) != 1 or r2 is None:
+        raise AnalysisError(f"{file}: coordinate loop not found")
+    l3 = l3[0]
+    r3 = cq.loop_range(l3, cq.preceding(s2, l3))
+    if r3 is None:
+        raise AnalysisError(f"{file}: coordinate loop bounds not recognised")
+    iv, jv, kv = r1["var"], r2["var"], r3["var"]
+    rep.check(cq.range_is(r1, "0", "nval-1") and cq.range_is(r2, "0", "nval-1") and cq.range_is(r3, "0", "ncol-1") and not r2["extra"] and not r3["extra"], "R20.b", file, "c_paretofront",
+              "every point against every other point, over all coordinates", "", line=l1.get("_line"))
+    s3 = body_stmts(r3["body"])
+    DIFF = f"(data[ncol*{jv}+K0] - data[ncol*{iv}+K0])"
+    # the dominance flag: the scalar tested after the coordinate loop to set isdominated
+    post2 = s2[s2.index(l3) + 1:]
+    pce = cq.evaluate(post2)
+    flagst = [e for e in cq.stores(pce, "isdominated") if cq.same_expr(e.val, "1") and cq.same_expr(e.idx, iv)]
+    DOM = None
+    if len(flagst) == 1 and len(flagst[0].conds) == 1 and flagst[0].conds[0][1]:
+        a = cq.cond_atoms(flagst[0].conds[0][0], True)
+        if isinstance(a, cq.Atom) and a.op == '==' and len(a.d.symbols()) == 1:
+            DOM = list(a.d.symbols())[0]
+    if DOM is None:
+        raise AnalysisError(f"{file}: dominance flag not recognised")
     bad = []
-    for isn, pos in ((True, True), (True, False), (False, True), (False, False)):
-        def oracle(c, isn=isn, pos=pos):
+    for isn in (True, False):
+        def oracle(c, isn=isn):
             if c[0] == 'call' and c[1] == 'isnan':
-                return isn if show(c[2][0]) == "DIFF" else None
-            if c[0] == 'cmp':
-                return None
+                return isn if cq.same_expr(c[2][0], DIFF) else None
+            if c[0] == 'cmp' and c[1] in ('!=', '==') and show(c[2]) == show(c[3]) and cq.same_expr(c[2], DIFF):
+                return isn if c[1] == '!=' else not isn
+            if c[0] in ('and', 'or', 'not'):
+                from .c03 import _bool
+                return _bool(c, oracle)
             return None
         ce = CEval(oracle)
-        env = {"dom": ('sym', 'D0'), "orientationd": ('sym', 'OR')}
-        stm = []
-        ddef = None
-        for s in s3:
-            if s.get("kind") == "BinaryOperator" and s.get("opcode") == "=" and text(s["inner"][0]) == "diff":
-                ddef = s
-                continue
-            stm.append(s)
-        env["diff"] = ('sym', 'DIFF')
+        ce.summarise_loops = True
         try:
-            ce._walk(stm, env, [])
+            ce.run(s3, {DOM: ('sym', 'D0'), kv: ('sym', 'K0')})
         except Undecided as ex:
             bad.append(f"nan={isn}: {ex}")
             continue
-        cnn = Canon()
-        if isn:
-            if not (env["dom"] == ('sym', 'D0') and any(r[0] == "ContinueStmt" for r in ce.returns)):
-                bad.append(f"NaN difference: dom becomes {show(env['dom'])} (must be skipped)")
-        else:
-            want = ('mul', ('sym', 'D0'), ('cmp', '>', ('mul', ('sym', 'OR'), ('sym', 'DIFF')), num(0)))
-            if not (cnn.ratio(env["dom"]) == cnn.ratio(want)):
-                bad.append(f"dom becomes {show(env['dom'])}, expected dom * (orientation*diff > 0)")
-    rep.check(not bad, "R20.b", file, "c_paretofront", "coordinate step: NaN differences skipped, otherwise dom *= (orientation * diff > 0) (strict)", "; ".join(dict.fromkeys(bad)), line=l3[0].get("_line"))
-    okdiff = False
-    if ddef is not None:
-        cnn = Canon()
-        e = to_expr(ddef["inner"][1], {})
-        want = ('sub', ('call', 'A:data', (('add', ('mul', ('sym', 'ncol'), ('sym', jv)), ('sym', kv)),)), ('call', 'A:data', (('add', ('mul', ('sym', 'ncol'), ('sym', iv)), ('sym', kv)),)))
-        okdiff = cnn.ratio(e) == cnn.ratio(want)
-    rep.check(okdiff, "R20.b", file, "c_paretofront", "diff = coordinate of the other point j minus coordinate of the point i", text(ddef["inner"][1]) if ddef is not None else "", line=l3[0].get("_line"))
-    nanarg = [text(x["inner"][1]).replace(" ", "") for x in find_all(l3[0], lambda n: n.get("kind") == "CallExpr" and "isnan" in text(n["inner"][0]))]
-    rep.check(nanarg == ["diff"], "R20.b", file, "c_paretofront", "the NaN test is on the difference (a NaN in either point skips the coordinate)", str(nanarg), line=l3[0].get("_line"))
-    pre2 = {text(s["inner"][0]).replace(" ", ""): text(s["inner"][1]).replace(" ", "") for s in s2 if s.get("kind") == "BinaryOperator" and s.get("opcode") == "="}
-    pre1 = {text(s["inner"][0]).replace(" ", ""): text(s["inner"][1]).replace(" ", "") for s in s1 if s.get("kind") == "BinaryOperator" and s.get("opcode") == "="}
-    skip = [s for s in s2 if s.get("kind") == "IfStmt" and text(s["inner"][0]).replace(" ", "") in (f"{iv}=={jv}", f"{jv}=={iv}") and find_all(s, lambda n: n.get("kind") == "ContinueStmt")]
-    flag = [s for s in s2 if s.get("kind") == "IfStmt" and text(s["inner"][0]).replace(" ", "") == "dom==1"]
-    okfl = bool(flag) and text(stores_to(flag[0], "isdominated")[0]["inner"][1]) == "1" and bool(find_all(flag[0], lambda n: n.get("kind") == "BreakStmt"))
-    rep.check(pre2.get("dom") == "1" and pre1.get(f"isdominated[{iv}]") == "0" and bool(skip) and okfl and s2.index(flag[0]) > s2.index(l3[0]), "R20.b", file, "c_paretofront",
-              "a point is flagged (and the search stops) iff some other point is strictly better in every non-missing coordinate; flag reset per point, the point is not compared with itself", "", line=l2[0].get("_line"))
-    od = [d for d in find_all(fn["body"], lambda n: n.get("kind") == "VarDecl" and n.get("name") == "orientationd")]
-    rep.check(bool(od) and text([c for c in od[0]["inner"] if c.get("kind")][0]).replace(" ", "") == "(double)orientation", "R20.b", file, "c_paretofront", "orientation multiplies the difference (reversing it equals negating the data)", "", line=fn["line"])
+        fins = [f_ for f_ in ce.finals if f_[2] in ("end", "ContinueStmt")]
+        if not fins or any(f_[1] for f_ in fins):
+            bad.append(f"nan={isn}: undecided test")
+            continue
+        for env_, _c, _h in fins:
+            got = env_.get(DOM, ('sym', 'D0'))
+            if isn:
+                if not cq.same_expr(got, "D0"):
+                    bad.append(f"NaN difference: flag becomes {show(got)[:80]} (must be skipped)")
+            else:
+                want = ('mul', ('sym', 'D0'), ('cmp', '>', ('mul', ('sym', 'orientation'), cq.parse(DIFF)), num(0)))
+                want2 = ('mul', ('sym', 'D0'), ('cmp', '<', num(0), ('mul', ('sym', 'orientation'), cq.parse(DIFF))))
+                if not (cq.same_expr(got, want) or cq.same_expr(got, want2)):
+                    bad.append(f"flag becomes {show(got)[:120]}, expected flag * (orientation*(x_j - x_i) > 0)")
+    rep.check(not bad, "R20.b", file, "c_paretofront", "coordinate step: NaN differences skipped, otherwise flag *= (orientation * (x_j[k] - x_i[k]) > 0) (strict; the other point minus the point)",
+              "; ".join(dict.fromkeys(bad)), line=l3.get("_line"))
+    pre2 = cq.evaluate(cq.preceding(s2, l3), oracle=lambda c: False if cq.same_cond(c, f"{iv} == {jv}", True) else None)
+    penv2 = pre2.finals[-1][0] if pre2.finals else {}
+    pre1 = cq.evaluate(cq.preceding(s1, l2))
+    reset = [e for e in cq.stores(pre1, "isdominated") if cq.same_expr(e.idx, iv) and cq.same_expr(e.val, "0") and not e.conds]
+    skipself = [r for r in cq.evaluate(cq.preceding(s2, l3)).returns if r[0] == "ContinueStmt" and cq.holds(r[1], f"{iv} == {jv}", True)] or \
+        any(cq.excluded(e.conds, f"{iv} == {jv}", True) for e in flagst)
+    okfl = bool(flagst) and cq.holds(flagst[0].conds, f"{DOM} == 1", True) and any(r[0] == "BreakStmt" and cq.holds(r[1], f"{DOM} == 1", True) for r in pce.returns)
+    rep.check(DOM in penv2 and cq.same_expr(penv2[DOM], "1") and bool(reset) and bool(skipself) and okfl, "R20.b", file, "c_paretofront",
+              "a point is flagged (and the search stops) iff some other point is strictly better in every non-missing coordinate; flag reset per point, the point is not compared with itself", "", line=l2.get("_line"))
     P = pyxread.load_all(rep.repo)
     shims = {cm: {sh.name: sh for sh in d["shims"]} for cm, d in P.items()}
     sites, _ = xlayer.find_sites(rep.repo, shims)
-    st = [s for s in sites if s.shim.name == "pareto_front"]
+    st = [s_ for s_ in sites if s_.shim.name == "pareto_front"]
     if len(st) != 1:
         raise AnalysisError("stat/sutils.py: pareto_front call site not found")
     st = st[0]
@@ -194,60 +223,73 @@ def run(rep):
     rep.check(ok, "R20.b", "stat/sutils.py", "pareto_front", "kernel error code raises", how, line=st.call.lineno)
     v = st.args.get("isdominated")
     rep.check(v is not None and v[1].fresh and v[1].init == ("zeros",), "R20.b", "stat/sutils.py", "pareto_front", "flags: fresh zero int32 vector of one entry per point", "", line=st.call.lineno)
-    pf = st.func
-    txt = ast.unparse(pf).replace(" ", "")
-    rep.check("data=data.astype(np.float64)" in txt and "data.ndim!=2" in txt and "np.ascontiguousarray(data)" in txt and "np.zeros(data.shape[0]).astype(np.int32)" in txt, "R20.b", "stat/sutils.py", "pareto_front",
-              "data copied to float64, rank 2 checked, made contiguous; flags sized by the number of points", "", line=pf.lineno)
+    pa = pq.call_arguments(st.func, st.call, list(st.shim.params))
+    d_ = pa.get("data")
+    okd = d_ is not None and all(pq.mentions(x, lambda e: pq.call_named(e, "astype") and e[2][0] == ('sym', 'data') and pq.same(e[2][1], "np.float64")) for _c, x in pq.split_where(d_))
+    fl = pa.get("isdominated")
+    okfz = fl is not None and pq.call_named(fl, "zeros") and pq.mentions(fl[2][0], lambda e: pq.call_named(e, "shape") and pq.same(e[2][1], "0")) and \
+        _kw(fl, "dtype") is not None and pq.same(_kw(fl, "dtype"), "np.int32")
+    ppaths = pq.PEval().run(st.func)
+    rank2 = any(p_.how == "raise" and any(t and cq.same_cond(c, cq.parse("NDIM != 2"), True) for c, t in [(_ndim(c_), t_) for c_, t_ in p_.conds]) for p_ in ppaths)
+    rep.check(okd and okfz and rank2, "R20.b", "stat/sutils.py", "pareto_front",
+              "data copied to float64, rank 2 checked; flags sized by the number of points", f"data:{okd} flags:{okfz} rank:{rank2}", line=st.func.lineno)
 
     # ---------------- boxplot_stats ---------------------------------------------------------------------------------------------------------------------
     bp = Mod(rep.repo, "plot/boxplot.py")
     bs = bp.func("boxplot_stats")
-    idx = [x for x in bs.body if isinstance(x, ast.Assign) and isinstance(x.targets[0], ast.Name) and x.targets[0].id == "idx"]
-    okm = bool(idx) and ast.unparse(idx[0].value).replace(" ", "") in ("~np.isnan(data)&~np.isinf(data)", "(~np.isnan(data))&(~np.isinf(data))", "np.isfinite(data)")
-    rep.check(okm, "R20.c", "plot/boxplot.py", "boxplot_stats", "finite mask = not NaN and not infinite", ast.unparse(idx[0].value) if idx else "", line=bs.lineno)
-    main = [x for x in bs.body if isinstance(x, ast.If)]
-    stats = {}
-    qq = None
-    if main:
-        for x in ast.walk(ast.Module(body=main[0].body, type_ignores=[])):
-            if isinstance(x, ast.Assign) and isinstance(x.targets[0], ast.Subscript) and dotted(x.targets[0].value) == "prc":
-                stats[const_value(x.targets[0].slice)] = ast.unparse(x.value).replace(" ", "")
-            if isinstance(x, ast.Assign) and isinstance(x.targets[0], ast.Name) and x.targets[0].id == "qq" and isinstance(x.value, ast.List):
-                qq = [ast.unparse(e) for e in x.value.elts]
-            if isinstance(x, ast.Call) and dotted(x.func) == "np.nanpercentile":
-                stats["percentiles"] = ast.unparse(x.args[0]).replace(" ", "") + "|" + ast.unparse(x.args[1]).replace(" ", "")
-    want = {"count": "nok", "mean": "data[idx].mean()", "max": "data[idx].max()", "min": "data[idx].min()", "percentiles": "data[idx]|qq"}
-    for k, w in want.items():
-        rep.check(stats.get(k) == w, "R20.c", "plot/boxplot.py", "boxplot_stats", f"`{k}` computed on the finite values (data[idx])", f"computed as `{stats.get(k)}`", line=bs.lineno)
-    nok = [x for x in bs.body if isinstance(x, ast.Assign) and isinstance(x.targets[0], ast.Name) and x.targets[0].id == "nok"]
-    rep.check(bool(nok) and ast.unparse(nok[0].value).replace(" ", "") in ("np.sum(idx)", "idx.sum()"), "R20.c", "plot/boxplot.py", "boxplot_stats", "count = number of finite values", "", line=bs.lineno)
-    rep.check(qq == ["wqq1", "bqq1", "50", "bqq2", "wqq2"], "R20.c", "plot/boxplot.py", "boxplot_stats", "percentile levels [whisker low, box low, 50, box high, whisker high] (non-decreasing, in label order)", str(qq), line=bs.lineno)
-    unp = {ast.unparse(x.targets[0]).replace(" ", ""): ast.unparse(x.value).replace(" ", "") for x in bs.body if isinstance(x, ast.Assign) and isinstance(x.targets[0], ast.Tuple)}
-    rep.check(unp == {"(bqq1,bqq2)": "compute_percentiles(box_coverage)", "(wqq1,wqq2)": "compute_percentiles(whiskers_coverage)"}, "R20.c", "plot/boxplot.py", "boxplot_stats",
-              "box / whisker levels from the box / whisker coverages", str(unp), line=bs.lineno)
-    rep.check(bool(main) and ast.unparse(main[0].test).replace(" ", "") in ("nok>3", "nok>=4"), "R20.c", "plot/boxplot.py", "boxplot_stats", "statistics need at least four finite values", "", line=bs.lineno)
-    if main:
-        names = [x for x in ast.walk(ast.Module(body=main[0].orelse, type_ignores=[])) if isinstance(x, ast.List) and len(x.elts) == 8]
-        okn = bool(names)
-        if okn:
-            lab = [ast.unparse(e).replace(" ", "") for e in names[0].elts]
-            okn = lab == ["'{0:0.1f}%'.format(wqq1)", "'{0:0.1f}%'.format(bqq1)", "'50.0%'", "'{0:0.1f}%'.format(bqq2)", "'{0:0.1f}%'.format(wqq2)", "'min'", "'max'", "'mean'"]
-        rep.check(okn, "R20.c", "plot/boxplot.py", "boxplot_stats", "fewer than four values: NaN row carrying the same labels", "", line=bs.lineno)
+    bpaths = [p_ for p_ in pq.PEval().run(bs) if p_.how == "return"]
+    FIN = ["~np.isnan(data) & ~np.isinf(data)", "np.isfinite(data)"]
+    full = [p_ for p_ in bpaths if pq.mentions(p_.value, lambda e: pq.call_named(e, "nanpercentile") or pq.call_named(e, "percentile"))]
+    short = [p_ for p_ in bpaths if p_ not in full]
+    rep.check(len(full) == 1 and len(short) == 1, "R20.c", "plot/boxplot.py", "boxplot_stats", "one path with statistics, one NaN path", f"{len(full)} / {len(short)}", line=bs.lineno)
+    if len(full) == 1 and len(short) == 1:
+        fp, sp = full[0], short[0]
+        cnd = fp.conds[-1] if fp.conds else None
+        mask = None
+        for m in FIN:
+            if cnd is not None and (cq.same_cond(cnd[0], cq.parse("CNT > 3") if False else ('cmp', '>', pq.parse(f"np.sum({m})"), num(3)), True) and cnd[1] or
+                                    cq.same_cond(cnd[0], ('cmp', '<=', pq.parse(f"np.sum({m})"), num(3)), True) and not cnd[1]):
+                mask = m
+        rep.check(mask is not None, "R20.c", "plot/boxplot.py", "boxplot_stats", "statistics need at least four finite values (finite = not NaN and not infinite)",
+                  show(cnd[0])[:100] if cnd else "", line=bs.lineno)
+        if mask is not None:
+            VALID = f"data[{mask}]"
+            WQ, BQ = "compute_percentiles(whiskers_coverage)", "compute_percentiles(box_coverage)"
+            LEV = f"[{WQ}[0], {BQ}[0], 50, {BQ}[1], {WQ}[1]]"
+            ser = pq.find(fp.value, lambda e: pq.call_named(e, ".Series"))
+            okp = bool(ser) and any(pq.same(x[2][1], f"np.nanpercentile({VALID}, {LEV})") or pq.same(x[2][1], f"np.percentile({VALID}, {LEV})") for x in ser)
+            rep.check(okp, "R20.c", "plot/boxplot.py", "boxplot_stats", "percentiles of the finite values at [whisker low, box low, 50, box high, whisker high] (levels from the two coverages)",
+                      show(ser[0][2][1])[:200] if ser else "", line=bs.lineno)
+            want = {"count": f"np.sum({mask})", "mean": f"({VALID}).mean()", "max": f"({VALID}).max()", "min": f"({VALID}).min()"}
+            got = {}
+            for e in fp.effects:
+                if e.kind == 'store' and e.key[0] == 'sym':
+                    got[e.key[1].strip("'\"")] = e.val
+            for k_, w in want.items():
+                rep.check(k_ in got and pq.same(got[k_], w), "R20.c", "plot/boxplot.py", "boxplot_stats", f"`{k_}` computed on the finite values", f"computed as `{show(got.get(k_, num(0)))[:80]}`", line=bs.lineno)
+            # labels: index of the Series = formatted levels, in the same order; NaN path stores the same labels + min, max, mean
+            idx = _kw(ser[0], "index") if ser else None
+            lab_full = _labels(idx)
+            lev = [f"{WQ}[0]", f"{BQ}[0]", "50", f"{BQ}[1]", f"{WQ}[1]"]
+            okl = lab_full is not None and len(lab_full) == 5 and all(pq.same(a_, b_) or (b_ == "50" and a_ == ('sym', "'50.0%'")) for a_, b_ in zip(lab_full, lev))
+            rep.check(okl, "R20.c", "plot/boxplot.py", "boxplot_stats", "percentile labels formatted from the same levels, in the same order", "", line=bs.lineno)
+            nanlab = None
+            for e in sp.effects:
+                if e.kind == 'store' and pq.call_named(e.key, "elem") and e.val == ('nan',):
+                    nanlab = e.key[2][0]
+            labs = _label_list(nanlab)
+            okn = labs is not None and len(labs) == 8 and [x for x in labs[5:]] == ["min", "max", "mean"] and \
+                all((isinstance(a_, tuple) and pq.same(a_, b_)) or (b_ == "50" and a_ in ("50.0%", ('sym', "'50.0%'"))) for a_, b_ in zip(labs[:5], lev))
+            rep.check(okn, "R20.c", "plot/boxplot.py", "boxplot_stats", "fewer than four values: NaN row carrying the same labels", "", line=bs.lineno)
     cpf = bp.func("compute_percentiles")
-    try:
-        cn = Canon()
-        env = {"coverage": ('sym', 'cov')}
-        a1 = [x for x in cpf.body if isinstance(x, ast.Assign)]
-        q1 = cn.ratio(b.build(a1[0].value, env))
-        env2 = dict(env, qq1=('sym', 'Q1'))
-        q2 = cn.ratio(b.build(a1[1].value, env2))
-        okcp = q1 == (Ratio.const(100) - Ratio.sym('cov')) / 2 and q2 == Ratio.const(100) - Ratio.sym('Q1')
-    except (Undecided, IndexError):
-        okcp = False
+    cr = [p_ for p_ in pq.PEval().run(cpf) if p_.how == "return"]
+    okcp = len(cr) == 1 and pq.same(cr[0].value, "((100 - coverage)/2, 100 - (100 - coverage)/2)")
     rep.check(okcp, "R20.c", "plot/boxplot.py", "compute_percentiles", "levels (100 - coverage)/2 and 100 - that (central interval of the requested coverage)", "", line=cpf.lineno)
     bi = bp.func("Boxplot.__init__")
-    t = ast.unparse(bi).replace(" ", "")
-    rep.check("ifbox_coverage<40.0:" in t and "ifwhiskers_coverage<=box_coverage:" in t, "R20.c", "plot/boxplot.py", "Boxplot.__init__", "box coverage below 40 and whiskers not wider than the box are rejected", "", line=bi.lineno)
+    ipaths = pq.PEval().run(bi)
+    rj1 = any(p_.how == "raise" and p_.conds and p_.conds[-1][1] and cq.same_cond(p_.conds[-1][0], cq.parse("box_coverage < 40"), False) for p_ in ipaths)
+    rj2 = any(p_.how == "raise" and p_.conds and p_.conds[-1][1] and cq.same_cond(p_.conds[-1][0], cq.parse("whiskers_coverage <= box_coverage"), False) for p_ in ipaths)
+    rep.check(rj1 and rj2, "R20.c", "plot/boxplot.py", "Boxplot.__init__", "box coverage below 40 and whiskers not wider than the box are rejected", f"{rj1} {rj2}", line=bi.lineno)
     # ---------------- violin ------------------------------------------------------------------------------------------------------------------------------------
     vm = Mod(rep.repo, "plot/violinplot.py")
     vc = None
@@ -256,11 +298,107 @@ def run(rep):
             vc = f
     if vc is None:
         raise AnalysisError("plot/violinplot.py: _compute not found")
-    t = ast.unparse(vc).replace(" ", "")
-    okq = all(x in t for x in ("cpp1,cpp2=compute_percentiles(COVERAGE_CENTER)", "data.quantile(cpp1/100)", "data.quantile(cpp2/100)",
-                               "epp1,epp2=compute_percentiles(COVERAGE_EXTREMES)", "data.quantile(epp1/100)", "data.quantile(epp2/100)", "self.stat_median=data.median()"))
-    rep.check(okq, "R20.d", "plot/violinplot.py", "_compute", "median and quantiles at the levels implied by the centre / extremes coverages", "", line=vc.lineno)
-    rep.check("y=(y-y.min())/(y.max()-y.min())" in t, "R20.d", "plot/violinplot.py", "_compute", "density profile min-max normalised to [0, 1]", "", line=vc.lineno)
-    rep.check("notnull=se.notnull()&np.isfinite(se.values)" in t and "sen=se[notnull]" in t and "kernel=gaussian_kde(values[selected])" in t, "R20.d", "plot/violinplot.py", "_compute",
-              "KDE fitted on the finite values of the column", "", line=vc.lineno)
+    pe = pq.PEval()
+    vpaths = pe.run(vc)
+    vp = [p_ for p_ in vpaths if p_.how in ("end", "return")]
+    if not vp:
+        raise AnalysisError("plot/violinplot.py: _compute: no completing path")
+    vp = vp[-1]
+    attrs = {e.target: e.val for e in vp.effects if e.kind == 'attr'}
+    D = "self._data"
+    CC, CE = "compute_percentiles(COVERAGE_CENTER)", "compute_percentiles(COVERAGE_EXTREMES)"
+    wantq = {"self.stat_median": f"({D}).median()", "self.stat_center_low": f"({D}).quantile({CC}[0]/100)", "self.stat_center_high": f"({D}).quantile({CC}[1]/100)",
+             "self.stat_extremes_low": f"({D}).quantile({CE}[0]/100)", "self.stat_extremes_high": f"({D}).quantile({CE}[1]/100)"}
+    okq = all(k_ in attrs and pq.same(attrs[k_], w) for k_, w in wantq.items())
+    rep.check(okq, "R20.d", "plot/violinplot.py", "_compute", "median and quantiles at the levels implied by the centre / extremes coverages",
+              str({k_: show(attrs.get(k_, num(0)))[:50] for k_ in wantq})[:300], line=vc.lineno)
+    # inside the column loop: kde_y.loc[:, col] <- (y - y.min())/(y.max() - y.min()) with y = kernel(x), kernel = gaussian_kde(finite values)
+    ys_all = [e for e in vp.effects if e.kind == 'store' and e.target.endswith("kde_y.loc") and e.loops and e.val != ('nan',)]
+    ys = list({show(e.val): e for e in ys_all}.values())
+    okn, okk = bool(ys), bool(ys)
+    for e_ in ys:
+        v = e_.val
+        ok1 = ok2 = False
+        if v[0] == 'div' and v[1][0] == 'sub' and v[2][0] == 'sub':
+            y = v[1][1]
+            ok1 = pq.same(v[1][2], ('call', 'min', (y,))) and pq.same(v[2][1], ('call', 'max', (y,))) and pq.same(v[2][2], ('call', 'min', (y,)))
+            kern = pq.find(y, lambda e: pq.call_named(e, "f:gaussian_kde"))
+            if kern:
+                arg = kern[0][2][0]
+                ok2 = pq.mentions(arg, lambda e: pq.call_named(e, ".notnull")) and pq.mentions(arg, lambda e: pq.call_named(e, "isfinite"))
+        okn, okk = okn and ok1, okk and ok2
+    rep.check(okn, "R20.d", "plot/violinplot.py", "_compute", "density profile min-max normalised to [0, 1]", show(ys[0].val)[:120] if ys else "", line=vc.lineno)
+    rep.check(okk, "R20.d", "plot/violinplot.py", "_compute", "KDE fitted on the finite values of the column", "", line=vc.lineno)
     return EXPLANATION
+
+
+def _ndim(c):
+    """condition with `<x>.ndim` replaced by the symbol NDIM"""
+    if not isinstance(c, tuple) or not c or not isinstance(c[0], str):
+        return c
+    if pq.call_named(c, "attr:ndim"):
+        return ('sym', 'NDIM')
+    if c[0] in ('sym', 'num', 'nan'):
+        return c
+    return tuple([c[0]] + [(_ndim(x) if isinstance(x, tuple) and x and isinstance(x[0], str) else
+                            (tuple(_ndim(y) if isinstance(y, tuple) else y for y in x) if isinstance(x, tuple) else x)) for x in c[1:]])
+
+
+def _fmt_level(e):
+    """'{0:0.1f}%'.format(level) -> level Expr; a literal '50.0%' -> the literal"""
+    if pq.call_named(e, ".format") and e[2][0] == ('sym', "'{0:0.1f}%'") and len(e[2]) == 2:
+        return e[2][1]
+    if isinstance(e, tuple) and e[0] == 'sym' and e[1].startswith("'"):
+        return e
+    return None
+
+
+def _labels(idx):
+    """index labels of the percentile Series: a tuple of formatted levels or a comprehension over the level list"""
+    if idx is None:
+        return None
+    if idx[0] == 'tuple':
+        out = [_fmt_level(x) for x in idx[1]]
+        return None if any(x is None for x in out) else out
+    if pq.call_named(idx, "py:['{0:0.1f}%'.format(qqq)forqqqinqq]") or (idx[0] == 'call' and idx[1].startswith("py:[") and ".format(" in idx[1] and "'{0:0.1f}%'" in idx[1]):
+        # comprehension over a list named in the text: resolved by the caller through the level list itself
+        import re
+        m = re.match(r"py:\['\{0:0\.1f\}%'\.format\((\w+)\)for(\w+)in(\w+)\]$", idx[1])
+        if m and m.group(1) == m.group(2):
+            return _LEVELS_SENTINEL
+    return None
+
+
+class _Sentinel(list):
+    pass
+
+
+_LEVELS_SENTINEL = None
+
+
+def _label_list(e):
+    """labels iterated by the NaN path: tuple of label Exprs (possibly a concatenation) -> python list of level Exprs / plain names"""
+    if e is None:
+        return None
+    items = []
+
+    def flat(x):
+        if x[0] == 'tuple':
+            for y in x[1]:
+                items.append(y)
+            return True
+        if x[0] == 'add':
+            return flat(x[1]) and flat(x[2])
+        return False
+    if not flat(e):
+        return None
+    out = []
+    for x in items:
+        lv = _fmt_level(x)
+        if lv is None:
+            return None
+        if lv[0] == 'sym' and lv[1].startswith("'"):
+            out.append(lv[1].strip("'"))
+        else:
+            out.append(lv)
+    return out
